@@ -11,7 +11,7 @@ CHECKS = {
         note="Reals stand for binary64 (rounding budget outside the claim); numba/LLVM/PTX code generation trusted (py_func semantics encoded, counterexamples replayed on the compiled kernels and numba's CUDA simulator); np.linalg.qr replaced by exact Gram-Schmidt; shapes beyond the bounds not covered.",
         ref="DESIGN.md section 4 C01"),
     "C02": dict(
-        text="Bounded symbolic verification of one scheduler iteration from an ARBITRARY loop state (so plans of any length and any Jdes are covered): the current source of ltf_plan/lpsd_plan/vectorized_ltf_plan/new_ltf_plan is interpreted with if-then-else state merging over symbolic N (unbounded), fs, olap, bmin, Lmin, Jdes, Kdes; the solver shows no division by zero / sqrt of a negative, max(1,Lmin)<=L<=N, K>=1, K=navg=len(D), K=1=>L=N, every start in [0,N-L], first start 0, strictly increasing, last start N-L (generic k-th start from the proved loop invariant; generic-element arange for the vectorised code; literal unrolling for N<=12/24 with an unwinding assertion); SpectrumAnalyzer.plan() is executed in fork mode on symbolic plans satisfying exactly those post-conditions and never raises. Every obligation also exists after a prior plan in the same process (module-level state must not leak); the last iterations of ltf/lpsd are executed path by path from a state within 3 fs/N of the end of the band (bins emitted in bulk, early exits); the thorough tier explores whole plans at N=8 path by path. The tests run three schedulers on one configuration.",
+        text="Bounded symbolic verification of one scheduler iteration from an ARBITRARY loop state (so plans of any length and any Jdes are covered): the current source of ltf_plan/lpsd_plan/vectorized_ltf_plan/new_ltf_plan is interpreted with if-then-else state merging over symbolic N (unbounded), fs, olap, bmin, Lmin, Jdes, Kdes; the solver shows no division by zero / sqrt of a negative, max(1,Lmin)<=L<=N, K>=1, K=navg=len(D), K=1=>L=N, every start in [0,N-L], first start 0, strictly increasing, last start N-L (generic k-th start from the proved loop invariant; generic-element arange for the vectorised code; literal unrolling for N<=12/24 with an unwinding assertion); SpectrumAnalyzer.plan() is executed in fork mode on symbolic plans satisfying exactly those post-conditions and never raises; the scheduler given by NAME is resolved by the constructor's own code and plan() runs at N=64 with a symbolic Lmin (LPSD is exempt from Lmin). Every obligation also exists after a prior plan in the same process (module-level state must not leak); the last iterations of ltf/lpsd are executed path by path from a state within 3 fs/N of the end of the band (bins emitted in bulk, early exits); the thorough tier explores whole plans at N=8 path by path. The tests run three schedulers on one configuration.",
         note="Exact reals (IEEE ties outside); (N/2)**(1/Jdes) is an uninterpreted application with stated facts and the vectorised lookup grid is a generic adjacent pair; every sat model is replayed by running the real scheduler and SpectrumAnalyzer.plan() on the model's configuration family and checking every bin; new_ltf_plan has open known findings (F5a-d) and its heavier obligations run in the thorough tier only.",
         ref="DESIGN.md section 4 C02"),
     "C03": dict(
@@ -23,11 +23,11 @@ CHECKS = {
         note="Exact reals; MIN_JDES/MAX_JDES shrunk to 8/32 values; 'within 10% of the iterative scheduler' is outside the claim; the single-query form of monotonicity (two consecutive iterations) stays `unknown` and is kept in the thorough tier only, reported as inconclusive; the chain's auxiliary links are reported as violations only when a real plan of the model's configuration is non-monotone; thorough tier adds whole plans executed path by path at N=8.",
         ref="DESIGN.md section 4 C04"),
     "C05": dict(
-        text="Symbolic verification of the wiring of compute(), _lpsd_core, compute_single_bin and the band filter: the whole analysis module is re-created over one namespace in which the 18 kernels are recorders returning fresh symbols, the window function returns a tagged symbolic array and _build_Q a tag; for plans covering every equality pattern of segment lengths (window/basis caches), every order, mode, backend (incl. auto->cuda above 1000 segments) and window kind the solver/recorder shows that bin j is produced by the right kernel with (x1[,x2], D[j], L[j], win(L[j]) -- Kaiser: length L+1, beta=alpha*pi, last sample dropped --, omega=2*pi*f[j]/fs, Q(L[j],order)), that results and window sums land in bin j, also after an earlier analysis with another window parameter; single-bin requests with symbolic frequency on 14 (N, L|fres, olap) shapes; band edges symbolic with every feasible mask explored by forking.",
+        text="Symbolic verification of the wiring of compute(), _lpsd_core, compute_single_bin and the band filter: the whole analysis module is re-created over one namespace in which the 18 kernels are recorders returning fresh symbols, the window function returns a tagged symbolic array and _build_Q a tag; for plans covering every equality pattern of segment lengths (window/basis caches), every order, mode, backend (incl. auto->cuda above 1000 segments) and window kind the solver/recorder shows that bin j is produced by the right kernel with (x1[,x2], D[j], L[j], win(L[j]) -- Kaiser: length L+1, beta=alpha*pi, last sample dropped --, omega=2*pi*f[j]/fs, Q(L[j],order)), that results and window sums land in bin j, also after an earlier analysis with another window parameter or another window callable of the same name; single-bin requests with symbolic frequency on 14 (N, L|fres, olap) shapes; band edges symbolic with every feasible mask explored by forking.",
         note="The kernels themselves are C01's subject (here recorders); counterexamples are replayed by running the real compute()/compute_single_bin() on pseudo-random data against the reference estimator; single-bin segmentation is decided on the concrete shape grid, not for symbolic N/L/olap.",
         ref="DESIGN.md section 4 C05"),
     "C06": dict(
-        text="Bounded symbolic verification: the real auto kernels are executed on x[n]=A cos(w0 n+phi) with symbolic amplitude, phase, frequency and an arbitrary real window, and the solver shows XX=|A/2(e^{i phi}S1+e^{-i phi}W(2w0))|^2 for every such input (hence ps=A^2/2 exactly when the image term vanishes, any L and fractional bin); the scaling laws in c are shown on all 18 kernels and, with the law in the sampling rate a, on SpectrumResult for a generic bin; ENBW=fs*S2/S12. Tests check ENBW>0 only.",
+        text="Bounded symbolic verification: the real auto kernels are executed on x[n]=A cos(w0 n+phi) with symbolic amplitude, phase, frequency and an arbitrary real window, and the solver shows XX=|A/2(e^{i phi}S1+e^{-i phi}W(2w0))|^2 for every such input (hence ps=A^2/2 exactly when the image term vanishes, any L and fractional bin); the scaling laws in c are shown on all 18 kernels and, with the law in the sampling rate a, on SpectrumResult for a generic bin, also after other lazily computed attributes of the result were read first; ENBW=fs*S2/S12. Tests check ENBW>0 only.",
         note="Reals for binary64; L<=4 (quick) / 6 (thorough), K<=2; the size of the Kaiser image term is C12's subject; scheduler homogeneity in fs is C03's.",
         ref="DESIGN.md section 4 C06"),
     "C07": dict(
@@ -35,7 +35,7 @@ CHECKS = {
         note="Reals for binary64; gain L<=4,K<=2 (quick) / L<=6,K<=3; delay N=L<=4 (quick) / 6, all d<L, orders -1,0; the d/L edge effect of a linear delay is outside; code generation trusted.",
         ref="DESIGN.md section 4 C07"),
     "C08": dict(
-        text="Bounded symbolic verification: for the 12 detrending functions, adding a polynomial of degree <=p with symbolic coefficients (per channel, on absolute indices) leaves all five statistics unchanged for every record/window/frequency, for L from 1 (L<=p included); a degree p+1 term (and a constant for order -1) provably can change them (satisfiable witness, each channel separately). The double-precision basis is compared with the exact projector to 1e-12.",
+        text="Bounded symbolic verification: for the 12 detrending functions, adding a polynomial of degree <=p with symbolic coefficients (per channel, on absolute indices) leaves all five statistics unchanged for every record/window/frequency, for L from 1 (L<=p included); a degree p+1 term (and a constant for order -1) provably can change them (satisfiable witness, each channel separately); the invariance also holds after a basis of the other order was built for the same segment length earlier in the process. The double-precision basis is compared with the exact projector to 1e-12.",
         note="Reals for binary64 ('up to rounding' is the concrete 1e-12 comparison); L<=5,K<=2 (quick) / L<=8,K<=3; np.linalg.qr replaced by exact Gram-Schmidt; order->kernel dispatch in analysis.py is C05's.",
         ref="DESIGN.md section 4 C08"),
     "C09": dict(
@@ -63,7 +63,7 @@ CHECKS = {
         note="numba's parfor lowering and real thread counts are trusted (prange semantics); K=3 iterations, L=2 (quick); matplotlib replaced by inert stand-ins; the analyzer history uses recorder kernels (their purity is C13's read-only obligation).",
         ref="DESIGN.md section 4 C14"),
     "C15": dict(
-        text="Symbolic verification of the SISO, analytic (real sympy) and numeric MISO solvers on one generic bin whose joint spectral matrix is ANY Hermitian PSD matrix with PD input block (Cholesky parametrisation): the quantity under the square root is real and equals the Schur complement (last Cholesky pivot squared), hence 0<=residual^2<=S00, zero for an exact static combination, invariant under permutation and symbolic invertible re-mixing, analytic=numeric; q=1,2 fully symbolic, q=4 with a fixed rational input block (index bookkeeping), q=3 in the thorough tier.",
+        text="Symbolic verification of the SISO, analytic (real sympy) and numeric MISO solvers on one generic bin whose joint spectral matrix is ANY Hermitian PSD matrix with PD input block (Cholesky parametrisation): the quantity under the square root is real and equals the Schur complement (last Cholesky pivot squared), hence 0<=residual^2<=S00, zero for an exact static combination, invariant under permutation and symbolic invertible re-mixing, analytic=numeric; q=1,2 fully symbolic, q=4 with a fixed rational input block (index bookkeeping), q=3 in the thorough tier; for q<=2 also as the SECOND call of the solver in the process (same shape, unrelated earlier data).",
         note="`ltf` is a stub returning spectra drawn from one joint matrix (estimation itself is C01/C09); np.linalg.solve by Cramer's rule; np.linalg.cond -> 1 or (obligation agree/q2/ill-conditioned) 1e13 with np.linalg.pinv = inverse of a nonsingular matrix, replayed on a matrix whose real condition number exceeds 1e12 (singular matrices and pinv's rank cut-off outside); inputs of mixed dtype (integer first) must reach the estimator with their values intact; divisions encoded through one shared inverse symbol per divisor.",
         ref="DESIGN.md section 4 C15"),
     "C16": dict(
